@@ -11,6 +11,7 @@ import (
 	"fmt"
 	"sort"
 	"strings"
+	"time"
 )
 
 type rHDeliv struct {
@@ -62,6 +63,16 @@ type rHistory struct {
 	CloseCall       [2]int64      `json:"close_call"`       // stamps around conn.Close()
 	GenDraws        uint32        `json:"gen_draws"`        // final value of the system-bytes counter (hook), 0 if unknown
 	ValidateSession bool          `json:"validate_session"` // the connection runs WithSessionIDValidation(true); its own SessionID is 0xFFFF
+	// calls whose goroutine the application (its trace logger) parked right after the transport write returned, i.e.
+	// between "written" and "waiting": the linearizer keeps them at `written` until the call returns
+	Parked map[int]bool `json:"parked,omitempty"`
+	// control transactions the harness made through the runtime's WriteMessage: system bytes -> call index
+	CtrlSB      map[uint32]int `json:"ctrl_sb,omitempty"`
+	ReleaseT    int64          `json:"-"` // wall clock (unix nanos) at which the parked calls were released (0 = none)
+	PromptBound time.Duration  `json:"-"` // bound for "promptly" (0 = 1.5 s)
+	// extremes of the reconnecting gauge seen by the sampler over the whole run (from before Open to after the last call)
+	RetryMin int64 `json:"retry_gauge_min"`
+	RetryMax int64 `json:"retry_gauge_max"`
 }
 
 // ---- linearizer
@@ -100,6 +111,7 @@ type shSender struct {
 	call     *rCallResult
 	wantNS   bool // waiting for sel:0 to take the not-selected exit
 	lib      bool // a send the library made on its own (S9Fx notice): no harness call behind it
+	parked   bool // the call's goroutine was held between the write and the reply wait (rHistory.Parked)
 }
 
 type shEpoch struct{ ctxDone, connOpen, joined bool }
@@ -481,6 +493,9 @@ func (l *linearizer) emitB(i int) {
 	defer delete(l.inB, i)
 	c := s.call
 	gen := s.ep
+	if s.pc == 6 && s.parked {
+		l.advanceTo(i, 7) // released: the in-flight increment, then the four-way wait
+	}
 	switch s.pc {
 	case 7: // parked in the select
 		switch c.Outcome {
@@ -591,7 +606,11 @@ func (l *linearizer) processRead(gen, idx int) {
 		}
 		switch s.kind {
 		case "s", "c":
-			l.advanceTo(i, 7)
+			if s.parked {
+				l.advanceTo(i, 6) // the frame is on the wire, the sender has not entered the reply wait yet
+			} else {
+				l.advanceTo(i, 7)
+			}
 		case "f":
 			l.advanceTo(i, 6)
 		case "a":
@@ -626,6 +645,11 @@ func linearize(h *rHistory) (toks []string, expectO map[int]string, l *linearize
 		c := &h.Calls[i]
 		l.snd = append(l.snd, &shSender{kind: c.Kind, call: c})
 	}
+	for i := range h.Parked {
+		if i >= 0 && i < len(l.snd) {
+			l.snd[i].parked = true
+		}
+	}
 	// system bytes: known from the wire
 	maxSB := uint32(0)
 	for g, in := range h.In {
@@ -640,6 +664,15 @@ func linearize(h *rHistory) (toks []string, expectO map[int]string, l *linearize
 				id := len(l.snd)
 				l.snd = append(l.snd, &shSender{kind: "a", sb: f.SB, hasSB: true, onWire: true, lib: true})
 				l.bySB[f.SB] = id
+			case f.PType == 0 && f.SType == 5 && c09CtrlCall(h, f.SB) >= 0:
+				// a control transaction the harness made through the runtime's WriteMessage: it has a call record
+				id := c09CtrlCall(h, f.SB)
+				if l.snd[id].hasSB {
+					continue
+				}
+				s := l.snd[id]
+				s.sb, s.hasSB, s.onWire = f.SB, true, true
+				l.bySB[f.SB] = id
 			case f.PType == 0 && (f.SType == 1 || f.SType == 5): // Select.req of this generation / a Linktest.req of the library
 				id := len(l.snd)
 				l.snd = append(l.snd, &shSender{kind: "c", sb: f.SB, hasSB: true, onWire: true})
@@ -652,6 +685,15 @@ func linearize(h *rHistory) (toks []string, expectO map[int]string, l *linearize
 			}
 			if f.SB > maxSB {
 				maxSB = f.SB
+			}
+		}
+	}
+	for sb, i := range h.CtrlSB { // a control transaction that never reached the wire: the harness drew its system bytes itself
+		if i >= 0 && i < len(h.Calls) && !l.snd[i].hasSB {
+			l.snd[i].sb, l.snd[i].hasSB = sb, true
+			l.bySB[sb] = i
+			if sb > maxSB {
+				maxSB = sb
 			}
 		}
 	}
@@ -862,7 +904,7 @@ func linearize(h *rHistory) (toks []string, expectO map[int]string, l *linearize
 			}
 			switch {
 			case s.pc >= 10:
-			case s.kind == "s" && s.pc >= 4:
+			case (s.kind == "s" || s.kind == "c") && s.pc >= 4:
 				l.emitB(ev.idx)
 			case c.Outcome == "notselected":
 				if l.selected {
@@ -928,6 +970,10 @@ func linearize(h *rHistory) (toks []string, expectO map[int]string, l *linearize
 				l.forceAll(l.cur)
 				l.ensureJoin(l.cur, false)
 			}
+			if l.loopOn {
+				l.emit("le") // Close waits for the reconnect loop (connectLoopWg): its deferred decrement has run
+				l.loopOn = false
+			}
 		}
 	}
 	for g := range l.pending {
@@ -969,4 +1015,12 @@ func parseReplayAnswer(ans string) (status string, fields map[string]string) {
 		}
 	}
 	return
+}
+
+// c09CtrlCall returns the call index of the harness-made control transaction with these system bytes, or -1.
+func c09CtrlCall(h *rHistory, sb uint32) int {
+	if i, ok := h.CtrlSB[sb]; ok && i >= 0 && i < len(h.Calls) {
+		return i
+	}
+	return -1
 }
